@@ -83,6 +83,7 @@ type VC struct {
 	notes    []string // unsupported constructs encountered (over-approximated)
 	discover bool
 	written  map[*ssa.BasicBlock]map[string]map[string]bool
+	writtenFrozen map[*ssa.BasicBlock]map[string]map[string]bool
 	curBlock *ssa.BasicBlock
 	curGuard string
 	hasAlloc bool
@@ -224,9 +225,14 @@ func (vc *VC) get(st *State, name, sort string) string {
 		return vs[0]
 	}
 	c := vc.fresh(name+"@m", sort)
+	// merge definitions belong to the join, not to whichever block first asked for the value:
+	// they are recorded as function-level facts so that no query loses them
+	cb := vc.curBlock
+	vc.curBlock = nil
 	for i, p := range st.parents {
 		vc.assume(implies(p.cond, sx("=", c, vs[i])))
 	}
+	vc.curBlock = cb
 	st.vals[name] = c
 	return c
 }
@@ -354,7 +360,7 @@ func (vc *VC) subFun(structT types.Type, idx int) string {
 		inv := "inv_" + n
 		vc.declareFun(inv, []string{"Int"}, "Int")
 		vc.preamble = append(vc.preamble,
-			fmt.Sprintf("(assert (forall ((x Int)) (! (and (= (%s (%s x)) x) (=> (> x 0) (> (%s x) 0)) (=> (> x 0) (= (sub_kind (%s x)) %d))) :pattern ((%s x)))))", inv, n, n, n, vc.ss().typeTag(types.NewPointer(structT))*1000+idx+1, n))
+			fmt.Sprintf("(assert (forall ((x Int)) (! (and (= (%s (%s x)) x) (=> (> x 0) (> (%s x) 0)) (=> (> x 0) (= (sub_kind (%s x)) %d)) (= (is_old (%s x)) (is_old x))) :pattern ((%s x)))))", inv, n, n, n, vc.ss().typeTag(types.NewPointer(structT))*1000+idx+1, n, n))
 	}
 	return n
 }
@@ -582,7 +588,8 @@ func (vc *VC) store(st *State, p Term, val Term) {
 				name, sort := vc.cellVar(l.ElemT)
 				cur := vc.get(st, name, sort)
 				v := vc.updateSub(sx("select", cur, l.Base.S), l, 0, val.S)
-				vc.set(st, name, sort, sx("store", cur, l.Base.S, v))
+				vc.setAt(st, name, sort, l.Base.S, v)
+				_ = cur
 				return
 			}
 		}
